@@ -5,6 +5,11 @@ ROOT = os.path.dirname(os.path.dirname(os.path.abspath(__file__)))
 
 # id -> (engine, category, technique, level text, level note, design_ref)
 CHECKS = {
+ "C13": ("libmon", "exploration",
+   "runtime monitor over every encode/decode helper pair (inventory read from the sources with go/parser): round trip, format-syntax recognisers, independent text-to-value recomputation",
+   "All 82 helper pairs of conv and json (inventory checked against the source at run time) are driven with exhaustive 8/16-bit integers and booleans, boundary lists plus PRNG values for wider integers, random finite bit patterns and shortest-decimal hard cases for floats, stratified instants over years 0001-9999 in UTC and fixed-offset zones, Unix stamps in each unit, durations, UUIDs, IPs, MACs, URLs and the array variants. Oracle: decode(encode(v)) equals v at the format's resolution, the text matches the format's syntax (RFC 3339, RFC 8259 number, UUID, Go duration) and denotes the value.",
+   "Classes the formats do not define (years outside 0000-9999, sub-minute zone offsets, NaN/Inf, relative URI references) are tallied and checked for no panic only.",
+   "DESIGN.md §2 C13"),
  "C09": ("servlab", "exploration",
    "runtime monitor on regenerated server+client: scripted SecurityHandler/SecuritySource, handler-invoked flag and status decided by a reference evaluation of the requirement structure",
    "One operation per requirement structure: all 255 non-empty sets of alternatives over 3 schemes (three rotations of scheme kinds covering apiKey header/query/cookie, basic, bearer, oauth2) x all 4^n states {absent, accepted, declined, failed} exhaustively; global security with inherit/override/security:[]/anonymous alternative; wide structures over 8-32 schemes crossing the byte boundaries of the bitmask with PRNG states. Oracle: handler invoked iff some alternative has every scheme accepted (safety half only when a scheme handler failed), else 401; credentials seen by the SecurityHandler equal those sent. Second part drives the generated client with every subset of supplied schemes through a wire-level in-process transport and compares extracted with attached credentials (token-safe values must arrive identical, hostile ones identical or fail).",
